@@ -3,7 +3,7 @@
    programs of Model/Dispatch.v (guard sites, their conditions and their position relative to the
    first write, as read from the Rust handlers).  "The process really wrote nothing" is observed on
    the real binary by the correspondence check (whole-sandbox snapshots), not derivable here. *)
-From AP Require Import Base.Str Model.Dispatch Proofs.DispatchP.
+From AP Require Import Base.Str Model.Dispatch Proofs.DispatchP Proofs.DispatchModeP.
 From AP Require Gen.Tables.
 Open Scope N_scope.
 
@@ -55,6 +55,26 @@ Theorem C08_mcp : forall tool cid, In (tool, cid) Gen.Tables.mcp_mutating_tools 
 Proof. exact mcp_guarded. Qed.
 Print Assumptions C08_mcp.
 
+(* The guard is the only thing the output mode changes.  A refusal happens only in --json mode
+   without --yes (for ANY handler program run by the interpreter, hence for every command); the
+   invocation re-issued with --yes is never refused; and with --yes the outcome, the writes and the
+   reports of every handler are the same with and without --json.  (The --json --yes half is tied
+   to the binary by the `wrote`/areas comparison of the cli stream; the human-mode half is a
+   statement about the handler programs only: no stream runs the binary without --json.) *)
+Theorem C08_refusal_only_json_without_yes : forall base f lit,
+  guard base f = Some (ConfirmRequired lit) -> f_json f = true /\ f_yes f = false.
+Proof. exact refused_mode. Qed.
+Print Assumptions C08_refusal_only_json_without_yes.
+
+Theorem C08_retry_with_yes_not_refused : forall base f, guard base (with_yes f) = None.
+Proof. exact retry_with_yes_not_refused. Qed.
+Print Assumptions C08_retry_with_yes_not_refused.
+
+Theorem C08_yes_mode_independent : forall base f b,
+  f_yes f = true -> exec base (with_json b f) = exec base f.
+Proof. exact yes_json_indep. Qed.
+Print Assumptions C08_yes_mode_independent.
+
 (* ---------- non-vacuity ---------- *)
 
 (* deploy --apply --json with a pending plan: with --yes it writes targets and state, without it
@@ -83,3 +103,12 @@ Example C08_nonvacuous_mcp :
   In (s "deploy_apply", s "deploy --apply") Gen.Tables.mcp_mutating_tools /\
   would_write (s "deploy") (mcp_facts false false f_all) = true.
 Proof. vm_compute. split; [left|]; reflexivity. Qed.
+
+(* the mode theorems are not vacuous: the refused deploy is refused in exactly that mode, and the
+   --yes run writes the same with and without --json *)
+Example C08_nonvacuous_mode :
+  guard (s "deploy") f_all = Some (ConfirmRequired (s "deploy --apply")) /\
+  f_json f_all = true /\ f_yes f_all = false /\
+  guard (s "deploy") (with_yes f_all) = None /\
+  r_effects (exec (s "deploy") (with_json false (with_yes f_all))) = [WTargets; WState].
+Proof. vm_compute. repeat split; reflexivity. Qed.
